@@ -16,7 +16,7 @@ pub(crate) fn bytes_eq(a: &[u8], b: &[u8]) -> bool {
     true
 }
 
-// @harness props=C16,C02 props_thorough=C03 unwind=12 cap=600 mem=4 covers=4
+// @harness props=C16,C02 props_thorough=C03 unwind=12 cap=600 mem=1 covers=4
 // @fn Method::try_from Method::raw Method::to_str
 // @claim accept <=> slice is exactly GET / PUT / PATCH (case-sensitive), with the matching variant; raw/to_str round-trip
 // @bounds every byte string of length 0..=10 (length and bytes symbolic)
@@ -51,7 +51,7 @@ fn c16_method_exact() {
     std::mem::forget(r);
 }
 
-// @harness props=C16,C02 props_thorough=C03 unwind=12 cap=600 mem=4 covers=3
+// @harness props=C16,C02 props_thorough=C03 unwind=12 cap=600 mem=1 covers=3
 // @fn Version::try_from Version::raw
 // @claim accept <=> slice is exactly HTTP/1.0 or HTTP/1.1, with the matching variant; raw round-trips
 // @bounds every byte string of length 0..=10 (length and bytes symbolic)
